@@ -412,6 +412,15 @@
     },
     serThrown(e) {
       if (e === BUDGET_TOKEN) return JSON.stringify(['throw', 'budget', '']);
+      // node itself inspects and decorates a thrown value (reads .stack/.code, writes .stack) after the program has ended: when the thrown value is a
+      // logging host object these reads are the runner's, not the program's
+      if ((typeof e === 'object' || typeof e === 'function') && e !== null && hostPaths.has(e)) {
+        const hp = hostPaths.get(e);
+        while (log.length > 0) {
+          const last = log[log.length - 1];
+          if ((last[0] === 'get' || last[0] === 'set') && last[1] === hp && (last[2] === 'stack' || last[2] === 'code')) log.pop(); else break;
+        }
+      }
       const cls = (typeof e === 'object' && e !== null) ? errClass(e) : null;
       let msg = '';
       if (cls !== null && !userErrors.has(e)) {
